@@ -42,12 +42,16 @@ def __plugin_generator(configured):
     for plugin in configured:
         try:
             module, cls = plugin.rsplit(".", 1)
-            yield getattr(import_module(module), cls)
-            logging.debug('Did import integration %s', plugin)
-        except (DidNotEnable, Exception) as e:
+            plugin_class = getattr(import_module(module), cls)
+        except BaseException as e:
+            # (also the ones that are not Exception subclasses: a module that guards a missing dependency with
+            # sys.exit() must be skipped like any other, not end the application)
             logging.debug(
                 "Did not import integration %s: %s", plugin, e
             )
+            continue
+        logging.debug('Did import integration %s', plugin)
+        yield plugin_class
 
 
 def load_plugins(config: 'ConfigService', custom=None) -> List['Plugin']:
@@ -80,7 +84,7 @@ def __order_of(plugin) -> int:
     # it must not stop the other plugins, or the agent, from loading
     try:
         return int(plugin.order() or 0)
-    except Exception:
+    except BaseException:
         logging.debug("Plugin %s has no usable order.", plugin)
         return 0
 
